@@ -872,6 +872,73 @@ def lean_site(name, site, doc):
                ', '.join('.' + a for a in site['reserved']), ', '.join('.' + a for a in site['insMangled']),
                ', '.join('.' + a for a in site['insPlain'])))
 
+# ------------------------------------------------------------------ size_bytes parameter names (traits_generator.hpp)
+
+UNIQUE_PARAM_LOOP = ('while(std::find( std::begin(existing_names), std::end(existing_names), desired_name) != std::end(existing_names)) '
+                     '{ desired_name = fmt::format("{}_{}", desired_name, level_depth); } return desired_name;')
+UNIQUE_PARAM_ONCE = ('if(std::find( std::begin(existing_names), std::end(existing_names), desired_name) != std::end(existing_names)) '
+                     '{ return fmt::format("{}_{}", desired_name, level_depth); } return desired_name;')
+SIZE_BYTES_BODIES = {
+    'get_group_size_bytes_params': (
+        'path.push_back(g.name); param_names.push_back(make_unique_param_name( fmt::format("{}_num_in_group", fmt::join(path, "_")), '
+        'param_names, path.size() - 1)); param_types.push_back(get_num_in_group_underlying_type(g)); has_data_members |= '
+        '!g.members.data.empty(); for(const auto& nested_group : g.members.groups) { get_group_size_bytes_params( nested_group, path, '
+        'param_names, param_types, has_data_members); } path.pop_back();'),
+    'make_group_size_bytes_args': (
+        'auto params = fmt::format( "{}", fmt::join( std::end(param_names) - params_to_use, std::end(param_names), ", ")); '
+        'if(has_data_members) { if(params.empty()) { return "0"; } else { params += ", 0"; } } return params;'),
+    'make_group_size_bytes_impl': (
+        'if(path.empty()) { param_names.emplace_back("num_in_group"); } else { param_names.push_back(make_unique_param_name( '
+        'fmt::format("{}_num_in_group", fmt::join(path, "_")), param_names, path.size())); } '
+        'param_types.push_back(get_num_in_group_underlying_type(g)); has_data_members |= !g.members.data.empty(); '
+        'sum_terms.push_back(get_group_payload_size(g, param_names)); for(const auto& nested_group : g.members.groups) { '
+        'path.push_back(nested_group.name); make_group_size_bytes_impl( nested_group, path, param_names, param_types, sum_terms, '
+        'has_data_members); path.pop_back(); }'),
+}
+SIZE_BYTES_SNIPPETS = {
+    'make_message_size_bytes_impl': [
+        'for(const auto& g : members.groups) { const auto prev_size = param_names.size(); bool has_nested_data_members{}; '
+        'get_group_size_bytes_params( g, path, param_names, param_types, has_nested_data_members); const auto params_added = '
+        'param_names.size() - prev_size;',
+        'make_group_size_bytes_args( param_names, params_added, has_nested_data_members)',
+        'has_data_members |= has_nested_data_members; } has_data_members |= !members.data.empty();'],
+    'make_message_size_bytes': [
+        'std::vector<std::string> param_names; std::vector<std::string> param_types; std::vector<std::string> path; bool '
+        'has_data_members{}; sum_terms.emplace_back("block_length()"); make_message_size_bytes_impl( m.members, path, param_names, '
+        'param_types, sum_terms, has_data_members); if(has_data_members) { param_names.emplace_back("total_data_size");',
+        'fmt::arg( "params", make_size_bytes_params(param_names, param_types))'],
+    'make_group_size_bytes': [
+        'bool has_data_members{}; std::vector<std::string> path; std::vector<std::string> param_names; std::vector<std::string> '
+        'param_types; std::vector<std::string> sum_terms; make_group_size_bytes_impl( g, path, param_names, param_types, sum_terms, '
+        'has_data_members); if(has_data_members) { param_names.emplace_back("total_data_size");',
+        'fmt::arg( "params", make_size_bytes_params(param_names, param_types))'],
+}
+
+
+def size_bytes_shape(repo, report):
+    """(uniqueParamLoops, sizeBytesShapeOk): whether `make_unique_param_name` appends `_<depth>` in a loop (fix 0030) or once,
+    and whether the functions that build the `size_bytes` parameter and argument lists have exactly the text Gen/Scope.lean
+    transliterates"""
+    traits = open(os.path.join(repo, SRC, 'traits_generator.hpp'), encoding='utf-8').read()
+    body = fn_body(traits, 'make_unique_param_name')
+    if body == UNIQUE_PARAM_LOOP:
+        loops = True
+    elif body == UNIQUE_PARAM_ONCE:
+        loops = False
+    else:
+        raise ExtractError('traits_generator::make_unique_param_name: body not recognised')
+    bad = [f for f, b in SIZE_BYTES_BODIES.items() if fn_body(traits, f) != b]
+    for f, snippets in SIZE_BYTES_SNIPPETS.items():
+        b = fn_body(traits, f) or ''
+        if not all(x in b for x in snippets):
+            bad.append(f)
+    calls = len(re.findall(r'\bmake_unique_param_name\s*\(', no_comments(traits)))
+    if calls != 3:
+        bad.append('make_unique_param_name: %d occurrences' % calls)
+    report['size_bytes_params'] = {'unique_param_loops': loops, 'unrecognised': bad}
+    return loops, not bad
+
+
 # ------------------------------------------------------------------ rendering
 
 def lean_str(s):
@@ -1040,6 +1107,12 @@ def extract(repo, outdir):
     except (ExtractError, OSError, ValueError, IndexError) as ex:
         ok = False
         report['failed']['literal_rendering'] = str(ex)
+    sb_loops, sb_ok = False, False
+    try:
+        sb_loops, sb_ok = size_bytes_shape(repo, report)
+    except (ExtractError, OSError, ValueError, IndexError) as ex:
+        ok = False
+        report['failed']['size_bytes_params'] = str(ex)
     empty_site = {'lookups': [], 'reserved': [], 'insMangled': [], 'insPlain': []}
     ng_sites = {k: empty_site for k in ('publicTypeSite', 'inlineTypeSite', 'messageSite', 'groupSite')}
     ng_aux = False
@@ -1084,6 +1157,12 @@ def extract(repo, outdir):
              'def macrosStdUnqualified : List String := %s\n\n'
              % tuple(['true' if flags[k] else 'false' for k in ('stripsLeadingZeros', 'floatDotZero', 'escapesLiterals',
                                                                 'valueRefRecordsDependency')] + [lean_list(std_macros)]))
+    text += ('/-- `traits_generator::make_unique_param_name` appends `_<depth>` until the name is not among the existing ones '
+             '(`while`);\n    `false`: once (`if`) -/\ndef uniqueParamLoops : Bool := %s\n\n'
+             '/-- `get_group_size_bytes_params`, `make_group_size_bytes_impl`, `make_group_size_bytes_args` and the parts of\n'
+             '    `make_message_size_bytes(_impl)` / `make_group_size_bytes` that build the parameter and argument lists have exactly '
+             'the\n    text Gen/Scope.lean transliterates -/\ndef sizeBytesShapeOk : Bool := %s\n\n'
+             % ('true' if sb_loops else 'false', 'true' if sb_ok else 'false'))
     text += lean_site('publicTypeSite', ng_sites['publicTypeSite'], 'names_generator::generate_type_names, loop over the public types')
     text += lean_site('inlineTypeSite', ng_sites['inlineTypeSite'], 'names_generator::handle_composite_elements')
     text += lean_site('messageSite', ng_sites['messageSite'], 'names_generator::generate_message_names, loop over the messages')
